@@ -1,4 +1,5 @@
 SPECIFICATION Spec
+CONSTANT Lax = TRUE
 CONSTANT Canonical = FALSE
 INVARIANT Inv_C01
 INVARIANT Inv_C01_local
